@@ -371,6 +371,20 @@ class Case:
     def new_lp(self):
         """create an LP position in the oSQTH/WETH pool; returns PositionInfo or None"""
         rng = self.rng
+        # a position that came back from a vault (or was never lent) is, some of the time, resized and offered again: the
+        # collateral it brings is what it holds now, in the same bar and at the same pool price as before
+        back = [k for k, p in self.um.positions.items() if not p.transferred and int(p.liquidity) > 0]
+        if back and rng.random() < 0.4:
+            pos = rng.choice(back)
+            liq = int(self.um.positions[pos].liquidity)
+            if rng.random() < 0.7:
+                r = Dr.call_op(self.um.remove_liquidity, pos, max(1, liq * rng.choice([30, 60, 90, 99]) // 100), True)
+            else:
+                r = Dr.call_op(self.um.add_liquidity_by_tick, pos.lower_tick, pos.upper_tick,
+                               Decimal(rng.choice(["5", "60"])), Decimal(rng.choice(["1", "12"])))
+            if r.ok and pos in self.um.positions and int(self.um.positions[pos].liquidity) > 0:
+                self.mon.hit("resized-lp-offered-again")
+                return pos, "resized"
         t = int(self.um.market_status.data.closeTick)
         base = (t // 60) * 60
         cls = rng.choice(["wide", "wide", "narrow", "above", "below"])
